@@ -1,16 +1,21 @@
 import AioslskVerif.Model.Conn
 /-!
-Line protocol for K_C10 (also used by K_C11 for the connect-back scenarios).
+Line protocol for K_C10.
 
   reset
-  new <direct|back|incoming|server> <typF:0|1> <slow:0|1>
-  at <i> connectOk <ok|block|fail> | connectFail | connectTimeout | cancelAttempt
+  new <direct|back|incoming|server> <typF:0|1> <slow:0|1>      fine-grained: stops at the first notification
+  at <i> <op>                                                   fine-grained: stops at the next notification
+       op = connectOk <ok|block|fail> | connectFail | connectTimeout | cancelAttempt
        | firstFrame <initP|initF|pierceP|pierceF|pierceUnknown|undecodable> | frame <0|1> | partialEof | eof | reset
        | readTimeout | disconnect [<REASON>] | closeDone | send <ok|block|fail> | drainOk | sendTimeout <0|1> | restart
-       | queue <ok|block|fail> | queueTimeout
+       | queue <ok|block|fail> | queueTimeout | sendData <ok|block|fail> | recvData | data
+  at <i> noteA <ok|block|fail> | noteC       the listeners of the outstanding notification of the attempt / of the closing
+                                             task are done (noteA: what the write of the init message does, if that follows)
+  at <i> parkA | parkC                       a listener of that notification suspends
+  anew <origin> <typF> <slow> | aat <i> <op> the same when no listener suspends (every notification passes at once)
   (REASON = UNKNOWN | CONNECT_FAILED | REQUESTED | READ_ERROR | WRITE_ERROR | TIMEOUT | EOF; default REQUESTED)
 
-Every line answers with what the op made observable and the state at the quiescent point after it:
+Every line answers with what the op made observable and the state at that point:
   ev=<state/msg/init/wrote events of connection i, in order> res=<results, sorted> reg=<registered ids> st=<state per connection> open=<socket open per connection>
 or `rejected` when the op is not enabled in the model state (the harness never generates such an op), `bad-op` when unparsable.
 -/
@@ -31,6 +36,7 @@ def ordered : Ev → Option String
   | .init true => some "init:req"
   | .init false => some "init:unreq"
   | .wrote => some "wrote"
+  | .wroteRaw => some "wrote"
   | _ => none
 
 def result : Ev → Option String
@@ -43,6 +49,7 @@ def result : Ev → Option String
   | .queueRes .ret => some "q:ret"
   | .queueRes .err => some "q:err"
   | .queueRes .cancelled => some "q:cancelled"
+  | .recvData => some "recv:data"
   | _ => none
 
 def insertS (x : String) : List String → List String
@@ -96,7 +103,18 @@ def parseCOp : List String → Option COp
   | ["drainOk"] => some .drainOk
   | ["sendTimeout", a] => (parseBool a).map .sendTimeout
   | ["restart"] => some .restart
+  | ["sendData", m] => (parseMode m).map .sendData
+  | ["recvData"] => some .recvData
+  | ["data"] => some .data
   | _ => none
+
+def parseFOp : List String → Option FOp
+  | ["noteA", m] => (parseMode m).map .noteA
+  | ["noteA"] => some (.noteA .ok)
+  | ["noteC"] => some .noteC
+  | ["parkA"] => some .parkA
+  | ["parkC"] => some .parkC
+  | l => (parseCOp l).map .op
 
 def handle (n : Net) (line : String) : Net × String :=
   match (line.splitOn " ").filter (· ≠ "") with
@@ -104,10 +122,26 @@ def handle (n : Net) (line : String) : Net × String :=
   | ["new", o, t, s] =>
     match parseOrigin o, parseBool t, parseBool s with
     | some o, some t, some s =>
-      let n' := n.step (.new o t s)
+      let n' := n.step (.newF o t s)
       (n', snapshot n' (newK o t s).2)
     | _, _, _ => (n, "bad-op")
+  | ["anew", o, t, s] =>
+    match parseOrigin o, parseBool t, parseBool s with
+    | some o, some t, some s =>
+      let n' := n.step (.new o t s)
+      (n', snapshot n' (settle .ok 8 (newK o t s)).2)
+    | _, _, _ => (n, "bad-op")
   | "at" :: i :: rest =>
+    match i.toNat?, parseFOp rest with
+    | some i, some op =>
+      match n.conns[i]? with
+      | none => (n, "bad-op")
+      | some c =>
+        match stepF c.k op with
+        | none => (n, "rejected")
+        | some (_, out) => let n' := n.step (.atF i op); (n', snapshot n' out)
+    | _, _ => (n, "bad-op")
+  | "aat" :: i :: rest =>
     match i.toNat?, parseCOp rest with
     | some i, some op =>
       match n.conns[i]? with
